@@ -403,7 +403,12 @@ def judge_pickle(case):
         d = diff_fields(snapshot(a0[n].run_params), snapshot(a1[n].run_params))
         j.check(not d, "pickle-params", lambda: f"algorithm {n}: run parameters {sorted(d)} differ after save/load")
         j.check(type(a0[n]) is type(a1[n]) and a0[n].name == a1[n].name, "pickle-type", "algorithm type/name differs after save/load")
+        # the loaded algorithm is still bound to the data / sampling it was added with (which preprocessing may since have replaced in the setup)
+        same_bind = deep_equal(getattr(a0[n], "data", None), getattr(a1[n], "data", None)) and deep_equal(getattr(a0[n], "fs", None), getattr(a1[n], "fs", None)) \
+            and deep_equal(getattr(a0[n], "dt", None), getattr(a1[n], "dt", None))
+        j.check(same_bind, "pickle-binding", lambda: f"algorithm {n}: bound data / fs / dt differ after save/load")
     j.check(deep_equal(getattr(setup, "fs", None), getattr(back, "fs", None)), "pickle-fs", "fs differs after save/load")
+    j.check(deep_equal(getattr(setup, "data", None), getattr(back, "data", None)), "pickle-data", "setup data differ after save/load")
     return j
 
 
